@@ -2,12 +2,24 @@
    Only statements here; each is closed by [exact] of a lemma of Synth/DataGenProofs.v.
 
    [generate a s] / [generate_full a s] transcribe CategoricalClassification.generate_data with
-   _configure_generate_feature and _generate_feature; [s : list answer] is the recorded answer
-   stream of numpy's global RNG (seed, choice, randint, shuffle calls in program order).  The model
-   checks the assumed library behaviour on every answer and returns [Err _] when an answer violates
-   it, when the stream does not have the shape of the code's call pattern, or when the real code
-   raises (empty domain, column index beyond n_features, value outside int32).  All theorems hold for
-   EVERY stream on which the model succeeds.  [generate_full] also returns the per-column domains. *)
+   _ordered_structure, _configure_generate_feature and _generate_feature; [s : list answer] is the
+   recorded answer stream of numpy's global RNG (seed, choice, randint, shuffle calls in program
+   order).  The model checks the assumed library behaviour on every answer and returns [Err _] when
+   an answer violates it, when the stream does not have the shape of the code's call pattern, or
+   when the real code raises (empty domain, an index described twice, a column index beyond
+   n_features).
+
+   STATED PRECONDITION (int32).  The code does NOT raise on values outside int32: `astype('int32')`
+   wraps them silently ([3000000000, 1] -> [-1294967296, 1]).  The model does not follow the code
+   there: it returns [Err 9] as soon as a value outside int32 would reach the data set
+   (DataGenProofs.ex_out_of_int32).  So every theorem below with hypothesis
+   [generate_full a s = Ok _] speaks only about runs all of whose generated values lie inside int32
+   (made explicit as the conjunct [in_int32 v = true] of C19_shape and as the int32 hypothesis of
+   C19_progress); for other argument sets nothing is claimed ("32-bit integers from the declared
+   domain" is unsatisfiable for them) and the harness only counts them.
+
+   The theorems hold for EVERY stream on which the model succeeds; C19_progress shows that is
+   every stream respecting numpy's contract, for valid arguments. *)
 From Coq Require Import List Arith ZArith Bool.
 From Outrank Require Import Synth.DataGen Synth.DataGenProofs.
 Import ListNotations.
@@ -29,30 +41,34 @@ Theorem C19_domain : forall a s X doms, generate_full a s = Ok (X, doms) ->
     forall i, (i < n_samples a)%nat -> In (cell X i j) (nth j doms []).
 Proof. exact (run_domain Nat.leb leb_le'). Qed.
 
-(* structure indices strictly increasing and < n_features: column j carries exactly the feature
-   declared for j (the default feature where nothing is declared) *)
-Theorem C19_positions : forall a, sorted_structure a = true ->
+(* every index described once and < n_features, IN ANY ORDER ([wf_structure]; single indices, index
+   lists, interleaved entries): column j carries exactly the feature declared for j (the default
+   feature where nothing is declared).  An index described twice makes the code raise ValueError. *)
+Theorem C19_positions : forall a, wf_structure a = true ->
   layout a = Ok (map (declared a) (seq 0 (n_features a))).
-Proof. exact layout_sorted. Qed.
+Proof. exact layout_wf. Qed.
 
-Theorem C19_positions_at : forall a i at_, sorted_structure a = true ->
+Theorem C19_positions_at : forall a i at_, wf_structure a = true ->
   In (i, at_) (flat (structure a)) ->
   exists specs, layout a = Ok specs /\ (i < n_features a)%nat /\ nth i specs (dflt a) = at_.
 Proof. exact layout_positions. Qed.
 
-Theorem C19_positions_default : forall a j, sorted_structure a = true -> (j < n_features a)%nat ->
+Theorem C19_positions_default : forall a j, wf_structure a = true -> (j < n_features a)%nat ->
   ~ In j (map fst (flat (structure a))) ->
   exists specs, layout a = Ok specs /\ nth j specs (dflt a) = dflt a.
 Proof. exact layout_default. Qed.
 
-(* observation (outside the hypothesis above): with an unsorted structure — distinct indices, all
-   < n_features — a declared feature does not sit at its declared index *)
-Theorem C19_positions_unsorted_refuted :
+Theorem C19_positions_duplicates_rejected : forall a,
+  ~ NoDup (map fst (flat (structure a))) -> layout a = Err 21.
+Proof. exact layout_rejects_duplicates. Qed.
+
+(* the behaviour before fix 70b449e (entries processed in the order given, [layout_old]): a
+   well-formed but unsorted structure mis-placed a declared feature *)
+Theorem C19_positions_unsorted_prefix_refuted :
   exists a i at_ specs,
-    In (i, at_) (flat (structure a)) /\ NoDup (map fst (flat (structure a))) /\
-    Forall (fun k => (k < n_features a)%nat) (map fst (flat (structure a))) /\
-    layout a = Ok specs /\ nth i specs (dflt a) <> at_.
-Proof. exact positions_unsorted_refuted. Qed.
+    In (i, at_) (flat (structure a)) /\ wf_structure a = true /\
+    layout_old a = Ok specs /\ nth i specs (dflt a) <> at_.
+Proof. exact positions_unsorted_prefix_refuted. Qed.
 
 (* ensure_rep: whenever the sample count allows (|domain| <= n_samples), every domain value occurs *)
 Theorem C19_ensure_rep : forall a s X doms, generate_full a s = Ok (X, doms) ->
@@ -69,24 +85,52 @@ Theorem C19_ensure_rep_prefix_refuted :
                 In v (nth j doms []) /\ forall i, (i < n_samples a)%nat -> cell X i j <> v.
 Proof. exact ensure_rep_prefix_refuted. Qed.
 
-(* the data set is a function of (arguments, answer stream), and the stream starts with
-   np.random.seed(seed): whatever the generator state was before the call is irrelevant *)
-Theorem C19_deterministic : forall a a' s s', a = a' -> s = s' -> generate a s = generate a' s'.
-Proof. intros a a' s s' -> ->. reflexivity. Qed.
+(* PARTIAL (seed clause).  Proved: the data set is a function of the arguments once the answer stream
+   after np.random.seed(s) is a function [rng] of s, and a successful run's stream starts with
+   np.random.seed(seed a) (C19_seeded), so the generator state before the call is irrelevant.
+   NOT proved (oracle assumption, made explicit as the quantified [rng]; tested on the real code by
+   three runs from different generator states): that numpy's stream after seed(s) is a function of s. *)
+Theorem C19_deterministic_partial : forall (rng : Z -> list answer) a a', a = a' ->
+  generate a (RSeed (seed a) :: rng (seed a)) = generate a' (RSeed (seed a') :: rng (seed a')).
+Proof. intros rng a a' ->. reflexivity. Qed.
 
 Theorem C19_seeded : forall a s X, generate a s = Ok X -> exists s1, s = RSeed (seed a) :: s1.
 Proof. exact generate_seeded. Qed.
 
-(* the validator evaluated on implementation outputs: sound for the property's clauses, and
-   accepted by every successful model run inside the positions hypothesis *)
+(* the calls a successful run made are exactly [call_pattern a], in that order *)
+Theorem C19_call_pattern : forall a s X doms, generate_full a s = Ok (X, doms) ->
+  map kind_of s = call_pattern a.
+Proof. exact run_pattern. Qed.
+
+(* progress: valid arguments ([layout] defined; in particular every well-formed structure) and a
+   stream respecting numpy's contract ([cols_stream]: replace=False draws are duplicate-free, of the
+   requested size, within [low, high]; randint(n) in [0, n); choice(vec, size, p) returns `size`
+   elements of vec; shuffle permutes; given frequencies are acceptable to choice), domains inside
+   int32: the model succeeds, with exactly those domains *)
+Theorem C19_progress : forall a specs doms s1,
+  layout a = Ok specs -> cols_stream a specs doms s1 ->
+  (forall dom, In dom doms -> forall v, In v dom -> in_int32 v = true) ->
+  exists X, generate_full a (RSeed (seed a) :: s1) = Ok (X, doms).
+Proof. exact generate_progress. Qed.
+
+Theorem C19_progress_wf : forall a doms s1, wf_structure a = true ->
+  cols_stream a (map (declared a) (seq 0 (n_features a))) doms s1 ->
+  (forall dom, In dom doms -> forall v, In v dom -> in_int32 v = true) ->
+  exists X, generate_full a (RSeed (seed a) :: s1) = Ok (X, doms).
+Proof. exact generate_progress_wf. Qed.
+
+(* the validator evaluated on implementation outputs: sound for the property's clauses (for every
+   structure the layout accepts; for well-formed ones the layout is the declared one), and accepted
+   by every successful model run *)
 Theorem C19_check_sound : forall a X, valid_dataset a X = true ->
   length X = n_samples a /\
   (forall row, In row X -> length row = n_features a /\ forall v, In v row -> in_int32 v = true) /\
-  (sorted_structure a = true -> forall j, (j < n_features a)%nat -> col_prop a (declared a j) (column X j)).
+  exists specs, layout a = Ok specs /\
+    (forall j, (j < n_features a)%nat -> col_prop a (nth j specs (dflt a)) (column X j)) /\
+    (wf_structure a = true -> forall j, (j < n_features a)%nat -> nth j specs (dflt a) = declared a j).
 Proof. exact valid_dataset_sound. Qed.
 
-Theorem C19_model_ok : forall a s X, sorted_structure a = true ->
-  generate a s = Ok X -> valid_dataset a X = true.
+Theorem C19_model_ok : forall a s X, generate a s = Ok X -> valid_dataset a X = true.
 Proof. exact model_passes_validator. Qed.
 
 (* naive generator: label = 1 iff the DRAWN needle value (column 30) is >= 40; needs
@@ -123,11 +167,15 @@ Print Assumptions C19_domain.
 Print Assumptions C19_positions.
 Print Assumptions C19_positions_at.
 Print Assumptions C19_positions_default.
-Print Assumptions C19_positions_unsorted_refuted.
+Print Assumptions C19_positions_duplicates_rejected.
+Print Assumptions C19_positions_unsorted_prefix_refuted.
 Print Assumptions C19_ensure_rep.
 Print Assumptions C19_ensure_rep_prefix_refuted.
-Print Assumptions C19_deterministic.
+Print Assumptions C19_deterministic_partial.
 Print Assumptions C19_seeded.
+Print Assumptions C19_call_pattern.
+Print Assumptions C19_progress.
+Print Assumptions C19_progress_wf.
 Print Assumptions C19_check_sound.
 Print Assumptions C19_model_ok.
 Print Assumptions C19_naive.
